@@ -12,9 +12,13 @@ VERIF = os.path.dirname(os.path.dirname(os.path.abspath(__file__)))
 def run(line):
     label, props, expect, specs = line.rstrip("\n").split("\t")
     cmd = [os.path.join(VERIF, "tools", "mutest.py"), "--quiet"]
-    for s in specs.split(" &&& "):
-        cmd += ["--sed", s]
-    cmd += [label] + props.split(",")
+    if specs.startswith("PATCH:"):
+        # a stored diff (relative to /verif), for edits a single regex substitution cannot express
+        cmd += [os.path.join(VERIF, specs[len("PATCH:"):].strip())] + props.split(",")
+    else:
+        for s in specs.split(" &&& "):
+            cmd += ["--sed", s]
+        cmd += [label] + props.split(",")
     r = subprocess.run(cmd, stdout=subprocess.PIPE, stderr=subprocess.STDOUT, text=True)
     fired = r.returncode == 0
     if r.returncode == 2 or "ERROR" in r.stdout:
